@@ -29,17 +29,18 @@ RULE = ('(1) deterministic enumeration slice (first 28 / 72 case indices): every
         'outputs of SubstituteExpressionsMapper or simplify(); 30 % of the random cases target cgen. Shapes with known open '
         'findings are only generated in the enumeration and hostile (25 %) slices. Non-trivial = at least half of the trees '
         'of the case had a defined valuation, were printed, compiled and compared; distinct = hash of all printed texts.')
-CASES = {'quick': 112, 'thorough': 1600}
-MIN_NONTRIVIAL = {'quick': 70, 'thorough': 1100}
+CASES = {'quick': 96, 'thorough': 1600}
+MIN_NONTRIVIAL = {'quick': 60, 'thorough': 1100}
 ANCHORS = ['loki/backend/fgen.py', 'loki/expression/mappers.py', 'loki/backend/cgen.py']
 REQUIRED_REACH = ['map_quotient', 'map_product', 'map_sum', 'map_power', 'map_comparison', 'map_logical_not',
                   'map_parenthesised_div', 'map_from_expr_map', 'CCodeMapper.map_power', 'CCodeMapper.map_inline_call']
 REQUIRED_COUNTERS = {'trees_compared_fortran': 800, 'trees_compared_c': 300, 'evaluator_validated_by_compiler': 1000,
-                     'fp_reparse_agree': 500}
+                     'fp_reparse_agree': 300}
 ASSUMPTIONS = ['gfortran/gcc 12 at -O0 define the target-language value of a text',
                'a tree is only judged at valuations where the independent evaluator finds it defined and well-conditioned',
                'the FP re-parse is a second opinion: texts it cannot parse but gfortran accepts (a*-b) are judged by gfortran']
-BUDGET_S = {'quick': 600, 'thorough': 3000}
+BUDGET_S = {'quick': 1200, 'thorough': 3600}
+WATCHDOG_S = {'quick': 3000, 'thorough': 9000}
 CASE_TIMEOUT_S = 900
 
 NTREES = 24
